@@ -141,11 +141,22 @@ static int json_pointer_set_single_path(struct json_object *parent, const char *
 		return array_set_cb(parent, idx, value, priv);
 	}
 
-	/* path replacements should have been done in json_pointer_get_single_path(),
-	 * and we should still be good here
-	 */
 	if (json_object_is_type(parent, json_type_object))
-		return json_object_object_add(parent, path, value);
+	{
+		char *key;
+		int rc;
+		if (!(key = strdup(path)))
+		{
+			errno = ENOMEM;
+			return -1;
+		}
+		/* the last token has not been through json_pointer_get_single_path() */
+		string_replace_all_occurrences_with_char(key, "~1", '/');
+		string_replace_all_occurrences_with_char(key, "~0", '~');
+		rc = json_object_object_add(parent, key, value);
+		free(key);
+		return rc;
+	}
 
 	/* Getting here means that we tried to "dereference" a primitive JSON type
 	 * (like string, int, bool).i.e. add a sub-object to it
